@@ -11,7 +11,7 @@ func init() {
 			"pppoe.ParseLCPPacket", "pppoe.ParseLCPOptions", "pppoe.ParsePADT", "pppoe.ParseEchoPacket", "pppoe.FindTag",
 			"pppoe.LCPStateMachine.ReceivePacket", "pppoe.IPCPStateMachine.ReceivePacket", "pppoe.IPV6CPStateMachine.ReceivePacket",
 			"pppoe.Authenticator.ReceivePacket", "pppoe.Authenticator.receivePAP", "pppoe.Authenticator.receiveCHAP",
-			"pppoe.SessionKeepAlive.OnEchoReply", "pppoe.KeepAliveManager.OnEchoReply",
+			"pppoe.SessionKeepAlive.OnEchoReply",
 			// DHCPv6 messages and nested options
 			"dhcpv6.ParseMessage", "dhcpv6.ParseOptions", "dhcpv6.ParseDUID", "dhcpv6.ParseIANA", "dhcpv6.ParseIAPD",
 			"dhcpv6.ParseIAAddress", "dhcpv6.ParseIAPrefix", "dhcpv6.Server.handleMessage",
@@ -27,6 +27,8 @@ func init() {
 			"ztp.parseVendorOptions", "ztp.extractNexusURL", "dhcp.parseOption82",
 		},
 		BaselineClaims: true,
+		// receive loops run until shutdown by design; the property bounds the work per packet, not the listener
+		ServiceLoops: []string{"radius.CoAServer.receiveLoop#1", "pppoe.Server.receiveLoop#1", "ha.HASyncer.readSSEStream#1"},
 		Undecided: []string{
 			"panics inside third-party decoders (insomniacslk/dhcp, encoding/json, regexp, layeh/radius) are assumed absent",
 			"wall-clock completion time: only loop variants (iteration counts bounded by the input length) are proved, not elapsed time",
